@@ -47,8 +47,15 @@ def tag (num : Nat) (k : FKind) : List UInt8 := varint (num * 8 + wireType k)
 
 def lookupMsg {α} (t : List (String × List α)) (name : String) : Option (List α) := (t.find? (·.1 == name)).map (·.2)
 
-mutual
-/-- one occurrence of a field -/
+/-- the entries of a message in the order they are written: for each table field in write order,
+    every entry of that name in its given order -/
+def emitOrder (wfs : List WField) (fs : Fields) : List (WField × PVal) :=
+  wfs.flatMap fun wf => (fs.filter (·.1 == wf.name)).map fun p => (wf, p.2)
+
+def flattenOpt (l : List (Option (List UInt8))) : Option (List UInt8) :=
+  l.foldr (fun x acc => match x, acc with | some a, some b => some (a ++ b) | _, _ => none) (some [])
+
+/-- one occurrence of a field; `d` bounds the message nesting below it -/
 def encField (tbl : List (String × List WField)) : Nat → WField → PVal → Option (List UInt8)
   | _, wf, .str b => match wf.kind with
     | .str => some (tag wf.num wf.kind ++ varint b.length ++ b)
@@ -67,30 +74,19 @@ def encField (tbl : List (String × List WField)) : Nat → WField → PVal → 
     | _ => none
   | 0, _, .msg _ => none
   | d + 1, wf, .msg fs => match wf.kind with
-    | .msg sub => match encMsg tbl d sub fs with
-      | some body => some (tag wf.num wf.kind ++ varint body.length ++ body)
+    | .msg sub => match lookupMsg tbl sub with
       | none => none
+      | some wfs =>
+        match flattenOpt ((emitOrder wfs fs).map fun p => encField tbl d p.1 p.2) with
+        | some body => some (tag wf.num wf.kind ++ varint body.length ++ body)
+        | none => none
     | _ => none
-/-- a message: for each table field in write order, every entry of that name in order -/
-def encMsg (tbl : List (String × List WField)) : Nat → String → Fields → Option (List UInt8)
-  | d, name, fs => match lookupMsg tbl name with
-    | none => none
-    | some wfs => encFieldsOf tbl d wfs fs
-def encFieldsOf (tbl : List (String × List WField)) : Nat → List WField → Fields → Option (List UInt8)
-  | _, [], _ => some []
-  | d, wf :: rest, fs =>
-    match encEntries tbl d wf fs, encFieldsOf tbl d rest fs with
-    | some a, some b => some (a ++ b)
-    | _, _ => none
-def encEntries (tbl : List (String × List WField)) : Nat → WField → Fields → Option (List UInt8)
-  | _, _, [] => some []
-  | d, wf, (n, v) :: r =>
-    if n == wf.name then
-      match encField tbl d wf v, encEntries tbl d wf r with
-      | some a, some b => some (a ++ b)
-      | _, _ => none
-    else encEntries tbl d wf r
-end
+
+/-- a top-level message body -/
+def encMsg (tbl : List (String × List WField)) (d : Nat) (name : String) (fs : Fields) : Option (List UInt8) :=
+  match lookupMsg tbl name with
+  | none => none
+  | some wfs => flattenOpt ((emitOrder wfs fs).map fun p => encField tbl d p.1 p.2)
 
 /-- `write_length_delimited_to_writer` -/
 def encDelimited (tbl : List (String × List WField)) (fs : Fields) : Option (List UInt8) :=
